@@ -851,6 +851,22 @@ impl<T: Transport, Env: UtpEnvironment> VirtualSocket<T, Env> {
                     self.last_sent_seq_nr = rewind_to;
                 }
                 self.segment_sizes.on_probe_failed(payload_size);
+
+                // The segments sent before the probe are still in flight. If the window does
+                // not let anything new out (which would arm the timer) they need it running,
+                // or a lost ACK leaves both sides waiting forever.
+                if self
+                    .user_tx_segments
+                    .first_seq_nr()
+                    .is_some_and(|first| first <= self.last_sent_seq_nr)
+                {
+                    self.timers.retransmit.arm(
+                        self.this_poll.now,
+                        self.rtte.retransmission_timeout(),
+                        true,
+                        "MTU probe expired, earlier segments still in flight",
+                    );
+                }
             }
             PopExpiredProbe::NotExpired => {
                 trace!("MTU probe hasnt expired yet");
